@@ -1649,3 +1649,63 @@ Qed.
 
 Theorem m03d_sound (c : scase) : m03d (set_obs_s c (SetCorr.model_run c)) = true.
 Proof. unfold m03d. now rewrite m_gate_sound, m_relay_sound. Qed.
+
+(** *** Ownership (m_own) *)
+(** every stored phase object of a delegated phase of the ObjectSet under reconciliation that is controlled by it
+    carries that phase's objects *)
+Definition phase_objects_carried (c : scase) : bool :=
+  match find_set (sc_sets c) (sc_kind c) (sc_ns c) (sc_name c) with
+  | None => true
+  | Some m =>
+      negb (is_activeb m) ||
+      forallb (fun ph => match find_phase (sc_phases c) (phase_kind m) (oi_ns (os_id m)) (C15Corr.join m ph) with
+                         | Some p => negb (controlled_by_uid (op_owners p) (oi_uid (os_id m))) || list_eqb pobj_eqb (op_objects p) (ph_objects ph)
+                         | None => true end) (C15Corr.delegated m)
+  end.
+
+Theorem m_own_sound_partial (c : scase) :
+  phase_objects_carried c = true -> C15Corr.m_own (as_dobs (set_obs_s c (SetCorr.model_run c))) = true.
+Proof.
+  intros Hcar. unfold C15Corr.m_own, phase_objects_carried in *. destruct (SetCorr.model_run c) as [[sw e] r] eqn:E.
+  cbn [as_dobs C15Corr.ds_step C15Corr.ds_pre_set set_obs_s sc_sets sc_kind sc_ns sc_name].
+  destruct (find_set (sc_sets c) (sc_kind c) (sc_ns c) (sc_name c)) as [m|] eqn:Ef; [|reflexivity].
+  change (C15Corr.is_activeb m) with (is_activeb m).
+  destruct (is_activeb m) eqn:Ha; [|reflexivity]. cbn [negb orb] in *.
+  apply (relay_clause_sound c (fun ph b => match C15Corr.last_seen (C15Corr.join m ph) b None with
+                                           | Some (Some cur) => controlled_by_uid (op_owners cur) (oi_uid (os_id m)) && list_eqb pobj_eqb (op_objects cur) (ph_objects ph)
+                                           | _ => false end) m sw e r Ef (is_activeb_spec m Ha)); [|exact E].
+  intros mem1 sw1 sw2 pevs rem ctrlof pre Hs Hph1 Hpre Hrp Hdup q Hq.
+  destruct (completed_loop_seen _ _ _ _ _ _ _ _ _ Hs Hpre Hrp Hdup q Hq) as (cur & Hls & Hcur & _ & Hown).
+  rewrite Hls, Hown. cbn [andb].
+  destruct (rpm_back_ok (sc_force c) mem1 _ _ _ _ _ _ _ _ _ _ _ _ _ _ _ Hrp Hcur) as (p & Hp & Hobj & Hown').
+  rewrite forallb_forall in Hcar. specialize (Hcar q Hq). pose proof Hs as (Hid & _).
+  rewrite Hph1 in Hp. unfold pobj_name, phase_kind in Hp. rewrite Hid in Hp. unfold C15Corr.join, phase_kind in Hcar. rewrite Hp in Hcar.
+  rewrite Hown', Hown, Hobj in Hcar. exact Hcar.
+Qed.
+
+Theorem m06d_sound_partial (c : scase) :
+  phase_objects_carried c = true -> m06d (set_obs_s c (SetCorr.model_run c)) = true.
+Proof. intros H. unfold m06d. now rewrite m_relay_sound, (m_own_sound_partial c H). Qed.
+
+(** *** The refuting case: the stored phase object of the delegated phase is controlled by the ObjectSet and reports
+    Available for its generation, but carries another object than the phase lists (the model, like
+    remotePhase.Reconcile, does not compare the spec of an existing phase object): Available=True is relayed, and the
+    ownership clause of the monitor raises an alarm. *)
+Definition x_pobj_other : osphase :=
+  {| op_id := {| oi_kind := KObjectSetPhase; oi_ns := 1; oi_name := 10001; oi_uid := 300 |}; op_rv := 7; op_gen := 1;
+     op_owners := [x_ref]; op_deleting := false; op_fin := true; op_orphan := false; op_pkg := 0; op_class := 1;
+     op_paused := false; op_revision := 1; op_prev := []; op_objects := [x_po 1 7]; op_conds := [x_avail 1]; op_ctrlof := [] |}.
+Definition x_other_objects_case : scase :=
+  case_of false (x_world [] [x_remote_set LActive [] [] 1 []] [x_pobj_other]) KObjectSet 1 10.
+
+Theorem m06d_refuted :
+  exists c, phase_objects_carried c = false /\ m06d (set_obs_s c (SetCorr.model_run c)) = false.
+Proof. exists x_other_objects_case. vm_compute. split; reflexivity. Qed.
+
+(** the hypothesis holds when the phase object carries the phase's objects; the same pass then reports Available=True *)
+Definition x_carried_case : scase :=
+  case_of false (x_world [] [x_remote_set LActive [] [] 1 []] [x_pobj 10001 false [x_key 1 1] [x_avail 1]]) KObjectSet 1 10.
+Example m06d_hypothesis_satisfiable :
+  phase_objects_carried x_carried_case = true /\
+  map (fun s => let '(cs, _, _, _) := s in cond_true cs CAvailable) (statuses (set_obs_s x_carried_case (SetCorr.model_run x_carried_case))) = [true].
+Proof. vm_compute. split; reflexivity. Qed.
